@@ -32,25 +32,44 @@ Inductive case :=
 (* populateServices -> populateRawServices of one service: typed members as re-emitted, input, output *)
 | CSVC (typed : obj) (inp : obj) (out : obj)
 (* KeyFingerprint(code,key): bytes under the base58 layer; PubKeyFromFingerprint result; PubKeyFromDIDKey result *)
-| CFP (code : N) (key : list N) (mc : list N) (dec : option (list N * N)) (dk : option (list N)).
+| CFP (code : N) (key : list N) (mc : list N) (dec : option (list N * N)) (dk : option (list N))
+(* did.ParseDocument -> JSONBytes (services are checked by CSVC) *)
+| CDID (inp : json) (out : json)
+(* CreateDIDKeyByJwk of the NIST-curve public key (x, y): the bytes under the base58 layer of the did:key *)
+| CEC (code : N) (size : nat) (x y : Z) (mc : list N).
 
 Definition check_case (c : case) : bool :=
   match c with
-  | CVC inp out => ojeq (roundtrip_vc inp) out
+  | CVC inp out => ojeq (roundtrip_vc Fixed inp) out
   | CVP inp out => ojeq (roundtrip_vp Fixed inp) out
   | CJWT inp minimize secs fmt iss sub jti nbf iat exp vcclaim rebuilt =>
-      match parse_vc inp with
+      match parse_vc Fixed inp with
       | Some v =>
           match jwt_claims (assoc_z secs) minimize v with
           | Some c =>
               String.eqb (j_iss c) iss && String.eqb (j_sub c) sub && String.eqb (j_jti c) jti &&
               ozeq (j_nbf c) nbf && ozeq (j_iat c) iat && ozeq (j_exp c) exp &&
-              jeq (JObj (j_vc c)) (f64j vcclaim) && ojeq (roundtrip_vc (JObj (refine (assoc_s fmt) c))) (Some rebuilt)
+              jeq (JObj (j_vc c)) (f64j vcclaim) && ojeq (roundtrip_vc Fixed (JObj (refine (assoc_s fmt) c))) (Some rebuilt)
           | None => false
           end
       | None => false
       end
   | CSVC typed inp out => jeq (JObj (service_roundtrip (f64o typed) inp)) (f64j (JObj out))
+  | CDID inp out =>
+      match out with
+      | JObj o => ojeq (roundtrip_did Fixed inp)
+                       (Some (JObj (filter (fun kv => negb (mem (fst kv) ["service"; "created"; "updated"; "proof"])) o)))
+      | _ => false
+      end
+  | CEC code size x y mc =>
+      match curve_size code with
+      | Some n => Nat.eqb n size && bytes_eqb (fp_bytes code (ec_compress n x y)) mc &&
+                  match didkey_decode mc with
+                  | Some k => bytes_eqb k (ec_compress n x y) && Z.eqb (be_value (tl k)) x
+                  | None => false
+                  end
+      | None => false
+      end
   | CFP code key mc dec dk =>
       bytes_eqb (fp_bytes code key) mc &&
       match fp_decode mc, dec with
